@@ -64,14 +64,19 @@ def rule_ids(ctx):
     ctx.touch(f)
     zips = [n for n in own_nodes(f.node) if isinstance(n, ast.Call) and norm(n.func) == "zip" and len(n.args) == 4]
     ctx.require(zips, "ID", f.qname, "row zip not found")
-    last = norm(zips[-1].args[-1])
-    ctx.check(last in ("np.arange(len(notearray))",), "ID", f"{f.qname}: id = arange(len)", func=f, node=zips[-1],
-              construct="id-column", msg=f"the id column is `{last}`; results are scattered back by it, so it must be the "
-                                         f"row index of the input")
+    z = zips[-1]
+    bases = {norm(a.value) for a in z.args[:-1] if isinstance(a, ast.Subscript)}
+    last = z.args[-1]
+    ok = len(bases) == 1 and isinstance(last, ast.Call) and norm(last.func) in ("np.arange", "numpy.arange") and len(last.args) == 1 \
+        and norm(last.args[0]) == f"len({next(iter(bases))})"
+    ctx.check(ok, "ID", f"{f.qname}: id = arange(len(input))", func=f, node=z, construct="id-column",
+              msg=f"the id column is `{norm(last)}`; results are scattered back by it, so it must be the row index 0..n-1 of the input array")
     ev = ctx.prog.func(f"{VS}:estimate_voices", "ID")
     ctx.touch(ev)
-    src = norm(ev.node)
-    ctx.check("voices = np.empty(len(notearray)" in src, "ID", f"{ev.qname}: one slot per input note", func=ev,
+    prepared = [norm(a.targets[0]) for a in own_nodes(ev.node) if isinstance(a, ast.Assign) and isinstance(a.value, ast.Call) and norm(a.value.func) == "prepare_notearray"]
+    sized = any(isinstance(a, ast.Assign) and isinstance(a.value, ast.Call) and norm(a.value.func) in ("np.empty", "np.zeros", "np.ones") and a.value.args
+                and any(norm(a.value.args[0]) == f"len({p})" for p in prepared) for a in own_nodes(ev.node))
+    ctx.check(bool(prepared) and sized, "ID", f"{ev.qname}: one slot per input note", func=ev,
               construct="voices-size", msg="the result must have one entry per input row (zero-duration notes included)")
 
 
@@ -103,9 +108,11 @@ def rule_importer_use(ctx):
     ctx.require(seen == {"estimate_spelling", "estimate_voices", "estimate_key"}, "F4c", f.qname,
                 f"analysis call sites found: {sorted(seen)}")
     # spelling is applied to every note of the file: note_array built from all notes
-    src = norm(f.node)
-    ctx.check("estimate_spelling(note_array)" in src, "F4c", "spelling computed on the array of all notes", func=f,
-              construct="spelling-input", msg="estimate_spelling must receive the note array of all notes of the file")
+    arrays = [norm(a.targets[0]) for a in own_nodes(f.node) if isinstance(a, ast.Assign) and isinstance(a.value, ast.Call) and norm(a.value.func) in ("np.array", "numpy.array")
+              and any(k.arg == "dtype" and "'pitch'" in norm(k.value) for k in a.value.keywords)]
+    sp = [c for c in own_nodes(f.node) if isinstance(c, ast.Call) and norm(c.func) == "analysis.estimate_spelling"]
+    ctx.check(len(sp) == 1 and sp[0].args and norm(sp[0].args[0]) in arrays, "F4c", "spelling computed on the array of all notes", func=f,
+              construct="spelling-input", msg="estimate_spelling must receive the structured array built from all notes of the file")
 
 
 def rule_key_source(ctx):
